@@ -85,6 +85,13 @@ def rim_area_vector(reg, f):
     nv = 4 if dimX == 2 else 8
     cen = X[cells[:, :nv]].mean(1)
     axi = type(f[0]).__name__ == "FieldAxisymmetric"
+    return rim_area_vector_of(cf, cen, X, x, axi)
+
+
+def rim_area_vector_of(cf, cen, X, x, axi):
+    """The kernel of ``rim_area_vector``: faces ``cf`` (2D: first end, second end[, mid-edge node]; 3D: four corners around the face[, the four
+    mid-edge nodes, mid e between corner e and e + 1]), the centres ``cen`` of the cells that own them, reference and current positions."""
+    dimX = X.shape[1]
     if dimX == 2:
         a, b = cf[:, 0], cf[:, 1]
         rot = lambda v: np.stack([v[:, 1], -v[:, 0]], 1)
@@ -113,6 +120,33 @@ def rim_area_vector(reg, f):
     return (sgn[:, None] * loop(x[cf])).sum(0), "vector"
 
 
+def requested_faces(points, cells, mask):
+    """The faces a caller ASKS for with a point mask on a quad / hexahedron body (linear or quadratic cells): the faces of the caller's
+    cells, from the oracle's own VTK tables (``QUAD_EDGES``, ``HEX_FACES``, ``HEX_EDGE_MID``), whose rim nodes all lie in the mask; ``None``
+    as a mask selects every face of every cell. Faces between two cells come once from either side with opposite orientation and cancel in
+    every resultant and moment, so the closed outline (mask=None), all faces of all cells (only_surface=False) and a mask that also covers
+    interior faces need no search for the surface. Nothing is read from a boundary region. Returns (faces in the layout of
+    ``rim_area_vector_of``, centres of the owning cells) or None for other cell types."""
+    X = np.asarray(points, float)
+    cells = np.asarray(cells)
+    dim, ncol = X.shape[1], cells.shape[1]
+    if dim == 2 and ncol in (4, 8, 9):
+        table = [(a, b) + ((m,) if ncol > 4 else ()) for a, b, m in QUAD_EDGES]
+        nv = 4
+    elif dim == 3 and ncol in (8, 20, 27):
+        table = [tuple(fc) + (tuple(HEX_EDGE_MID[frozenset((fc[e], fc[(e + 1) % 4]))] for e in range(4)) if ncol > 8 else ()) for fc in HEX_FACES]
+        nv = 8
+    else:
+        return None
+    cen = X[cells[:, :nv]].mean(1)
+    cf = np.concatenate([cells[:, list(t)] for t in table])
+    own = np.concatenate([cen] * len(table))
+    if mask is not None:
+        keep = np.asarray(mask, bool)[cf].all(1)
+        cf, own = cf[keep], own[keep]
+    return cf, own
+
+
 def edge_gauss(x3, fun, n=5):
     """Integral over three-node edges (first end, second end, mid-edge node; parameter t in [-1, 1]) of fun(x(t), dx/dt)."""
     g, w = np.polynomial.legendre.leggauss(n)
@@ -137,13 +171,19 @@ def rim_moment(reg, f):
     x = X + np.asarray(f[0].values, float)[:, :dimX]
     cells = reg.mesh.cells
     cen = X[cells[:, : (4 if dimX == 2 else 8)]].mean(1)
+    return rim_moment_of(cf, cen, X, x, type(f[0]).__name__ == "FieldAxisymmetric")
+
+
+def rim_moment_of(cf, cen, X, x, axi):
+    """The kernel of ``rim_moment`` (faces, owning-cell centres and positions as in ``rim_area_vector_of``)."""
+    dimX = X.shape[1]
     if dimX == 2:
         if cf.shape[1] not in (2, 3):
             return None, None
         a, b = cf[:, 0], cf[:, 1]
         rot = lambda v: np.stack([v[:, 1], -v[:, 0]], 1)
         sgn = np.sign((rot(X[b] - X[a]) * (0.5 * (X[a] + X[b]) - cen)).sum(1))
-        if type(f[0]).__name__ == "FieldAxisymmetric":
+        if axi:
             if cf.shape[1] == 2:
                 return None, float((-sgn * np.pi * (x[b, 0] - x[a, 0]) * (x[a, 1] + x[b, 1])).sum())
             return None, float((sgn * edge_gauss(x[cf[:, :3]], lambda q, dq: -2 * np.pi * q[:, 1] * dq[:, 0])).sum())
@@ -288,13 +328,23 @@ def attach_hooks(run):
     shadow = {}
     LOADARG = {"SolidBodyForce": "values", "SolidBodyGravity": "gravity", "PointLoad": "values", "SolidBodyPressure": "pressure"}
 
+    # what the documentation states for the arguments a caller leaves out (fourth audit: the bound arguments carry the defaults of the
+    # signature under test for those names; a changed default - every point load scaled by 2 pi R - would be its own reference)
+    DOCUMENTED = {"PointLoad": {"values": None, "apply_on": 0, "axisymmetric": False}, "SolidBodyForce": {"values": None, "scale": 1.0},
+                  "SolidBodyGravity": {"gravity": None, "density": 1.0}, "SolidBodyPressure": {"pressure": None}}
+
     def init_post(obj, arguments):
         if getattr(obj, "_vmon_in_update", False):
             return
+        doc = DOCUMENTED.get(type(obj).__name__, {})
+        given = getattr(arguments, "given", frozenset(arguments))
+        asked_for = {k: (v if (k in given or k not in doc) else doc[k]) for k, v in arguments.items()}
+        if any(k not in given for k in doc):
+            run.units["requested:documented-default:" + type(obj).__name__] += 1
         # (the point selection keeps its type: a boolean mask, negative ids or a tuple are not numbers)
         shadow[id(obj)] = (obj, {k: (None if v is None else (copy.deepcopy(v) if k == "points" else
                                                             (np.array(v, float) if k != "field" and np.ndim(v) > 0 else v)))
-                                 for k, v in arguments.items() if k != "field"})
+                                 for k, v in asked_for.items() if k != "field"})
 
     def update_pre(self, args, kwargs):
         object.__setattr__(self, "_vmon_in_update", True)
@@ -313,6 +363,31 @@ def attach_hooks(run):
     def asked(obj):
         ent = shadow.get(id(obj))
         return ent[1] if ent is not None and ent[0] is obj else None
+
+    # the loaded faces are the ones the caller ASKED the boundary region for (fourth audit, round 10 one template further: a template that
+    # drops its mask loads the whole outline; a reference built from the region's own faces and a "closed" read from the region's own mask
+    # follow it and demand a zero resultant): the mesh, point mask and only_surface handed to the region's constructor
+    # (documented defaults: mask=None, only_surface=True), kept as copies
+    faces_asked = {}
+
+    def region_init(obj, arguments):
+        mesh = arguments.get("mesh")
+        if mesh is None or not hasattr(arguments, "documented"):
+            return
+        mask = arguments.documented("mask", None)
+        pts = np.array(mesh.points, float)
+        faces_asked[id(obj)] = (obj, pts, np.array(mesh.cells), None if mask is None else np.isin(np.arange(len(pts)), point_ids(mask, len(pts))),
+                                bool(arguments.documented("only_surface", True)))
+
+    for name in ("RegionBoundary", "RegionQuadBoundary", "RegionQuadraticQuadBoundary", "RegionBiQuadraticQuadBoundary", "RegionHexahedronBoundary",
+                 "RegionQuadraticHexahedronBoundary", "RegionTriQuadraticHexahedronBoundary"):
+        cls = getattr(fem, name, None)
+        if cls is not None and "__init__" in cls.__dict__:
+            attach.wrap_init(cls, region_init)
+
+    def asked_faces(reg):
+        ent = faces_asked.get(id(reg))
+        return ent[1:] if ent is not None and ent[0] is reg else None
 
     def force_post(self, args, kwargs, ctx, result, exc):
         if exc is not None:
@@ -470,7 +545,11 @@ def attach_hooks(run):
         exp = (-p_da(p))[:d]
         scale = max(maxabs(p) * float(np.abs(w).sum()), 1e-300)
         lab = "SolidBodyPressure[%s]" % kind
-        closed = reg.mask is None and reg.only_surface
+        # closed outline / all faces of all cells: as the caller asked the region for, where its construction was seen (else as the region says)
+        req = asked_faces(reg)
+        req_mask, req_surface = (req[2], req[3]) if req is not None else (reg.mask, reg.only_surface)
+        closed = req_mask is None and req_surface
+        allfaces = req_mask is None and not req_surface
         if np.ndim(p) > 0:
             run.units["pressure:array-valued"] += 1
         if kind == "FieldAxisymmetric":
@@ -494,6 +573,45 @@ def attach_hooks(run):
                         unit="requested:SolidBodyPressure", config=("requested", lab, closed))
             if np.ndim(p_user) == 0 and p_user == 0.0:
                 run.units["pressure:requested-zero"] += 1  # None at construction, an explicit 0.0 in the call, update(0): no load at all
+        p_req = p if a is None else p_user  # (the requested pressure where the construction of the item was seen)
+        if req is not None and np.ndim(p_req) == 0:
+            # resultant, moment and axisymmetric radial entry over the faces the caller asked for, at the state the caller handed over:
+            # faces of the caller's cells (own tables) with every rim node in the caller's mask, current area vector and its first moment from
+            # the deformed rims (Stokes); nothing of it - faces, mask, orientation, state - is taken from the region or the item's own field
+            handed = kwargs.get("field", args[0] if args else None)
+            try:
+                uu = np.asarray((handed if handed is not None else f)[0].values, float)
+                Xc = req[0]
+                tab = requested_faces(Xc, req[1], req_mask) if uu.shape[0] == len(Xc) else None
+            except Exception:
+                tab = None
+            if tab is None:
+                run.skip("items.resultant", "faces asked for: cell type without a face table of our own / another number of points")
+            else:
+                xc = Xc + uu[:, : Xc.shape[1]]
+                axi = kind == "FieldAxisymmetric"
+                where = ":closed" if closed else (":all-faces" if allfaces else ":open")
+                sc = max(abs(float(p_req)) * float(np.abs(w).sum()), 1e-300)
+                own = rim_area_vector_of(tab[0], tab[1], Xc, xc, axi)
+                if own is not None and (own[1] == "axial") == axi:
+                    exp_req = -float(p_req) * (own[0] if axi else own[0][:d])
+                    run.compare("items.resultant", "item=%s clause=resultant-of-the-faces-asked-for" % lab, maxabs(got - exp_req) / sc, 1e-11,
+                                "%s: nodal forces do not sum to minus the requested pressure times the current area vector of the faces that the point "
+                                "mask / only_surface handed to the boundary region select on the caller's mesh (state: the field handed over)" % lab,
+                                unit="faces-asked-for:" + lab + where, config=("faces-asked-for", lab, where, req[1].shape[1]),
+                                sample={"item": lab, "faces": where, "sum": got.tolist(), "-p*A(faces asked for)": exp_req.tolist()})
+                mom_req, rad_req = rim_moment_of(tab[0], tab[1], Xc, xc, axi)
+                if rad_req is not None and axi and r.shape[1] == 2:
+                    run.compare("items.resultant", "item=%s clause=radial-resultant-of-the-faces-asked-for" % lab, abs(got_all[1] + float(p_req) * rad_req) / sc, 1e-11,
+                                "%s: the radial nodal forces do not sum to -p 2 pi int r n_r ds over the deformed edges the caller asked for" % lab,
+                                unit="faces-asked-for-radial:" + lab + where, config=("faces-asked-for-radial", lab, where, req[1].shape[1]))
+                if mom_req is not None and not axi and len(xc) == len(r):
+                    xr = xc[:, :d]
+                    got_m = np.cross(xr, r).sum(0) if d == 3 else np.array([(xr[:, 0] * r[:, 1] - xr[:, 1] * r[:, 0]).sum()])
+                    run.compare("items.resultant", "item=%s clause=moment-of-the-faces-asked-for" % lab,
+                                maxabs(got_m + float(p_req) * mom_req) / (sc * max(maxabs(xr), 1e-300)), 1e-11,
+                                "%s: the moment of the nodal forces differs from -p int x cross n da over the faces the caller asked for" % lab,
+                                unit="faces-asked-for-moment:" + lab + where, config=("faces-asked-for-moment", lab, where, req[1].shape[1]))
         if np.ndim(p) == 0:
             # the same resultant from the deformed rim nodes of the loaded faces alone (no shape functions, normals, radius of the region)
             try:
@@ -511,7 +629,6 @@ def attach_hooks(run):
         if closed and kind != "FieldAxisymmetric" and np.ndim(p) == 0:  # (a uniform pressure; a pressure field has a resultant)
             run.compare("items.resultant", "item=%s clause=closed-surface-zero" % lab, maxabs(got) / scale, 1e-11,
                         "%s: pressure on a closed surface has a resultant" % lab, unit="resultant:" + lab + ":closed-zero")
-        allfaces = reg.mask is None and not reg.only_surface
         if allfaces and np.ndim(p) == 0:
             # every face of every cell: the faces between two cells are loaded from both sides and cancel, what is left is the closed outline
             g0 = got if kind != "FieldAxisymmetric" else got[:1]
@@ -633,7 +750,8 @@ def attach_hooks(run):
                     config=(lab, "first-moment", type(f.region.element).__name__))
 
     def body_init(obj, arguments):
-        BODY_GIVEN[id(obj)] = (obj, {"density": arguments.get("density")})
+        # (documented default: None - no mass; not the default of the signature under test)
+        BODY_GIVEN[id(obj)] = (obj, {"density": arguments.documented("density", None) if hasattr(arguments, "documented") else arguments.get("density")})
 
     for cls in (M.SolidBody, M.SolidBodyNearlyIncompressible):
         attach.wrap_method(cls, "_mass", post=mass_post)
@@ -838,6 +956,11 @@ def case_load_forms(kind, fam, geometry, rep, k):
                     it.assemble.vector(f2, parallel=not par)
                     it.update(bvec().tolist())
                     it.assemble.vector()
+                # scale / density left out: the documented defaults are 1.0 (fourth audit: every other item names them, and the reference is
+                # the documented value, not the default of the signature)
+                for it in (fem.SolidBodyForce(field, values=bvec().tolist()), fem.SolidBodyGravity(field, gravity=bvec().tolist())):
+                    it.assemble.vector(field)
+            run.units["loads:scale-density-left-out"] += 1
             run.units["loads:none-default+update+no-field+parallel+foreign-container"] += 1
             run.units["loads:family:" + fam] += 1
             run.units["loads:geometry:" + geometry] += 1
@@ -1074,7 +1197,18 @@ SPEC = {
         "mpc:MultiPointConstraint:3d:centerpoint<0", "mpc:MultiPointConstraint:2d:centerpoint<0", "mpc:MultiPointContact:3d:centerpoint<0",
         "mpc:MultiPointContact:2d:centerpoint<0", "mpc:MultiPointConstraint:2d", "mpc:MultiPointContact:2d",
         "solid:block=False", "solid:flags-block-apply", "loads:none-default+update+no-field+parallel+foreign-container",
-        "loads:geometry:distorted", "loads:geometry:affine", "loads:geometry:curved"]
+        "loads:geometry:distorted", "loads:geometry:affine", "loads:geometry:curved",
+        # fourth audit: the faces the caller asked the boundary region for (own face tables on the caller's mesh and mask, the state handed
+        # over) on linear and quadratic templates; documented defaults for the arguments a caller leaves out
+        "faces-asked-for:SolidBodyPressure[Field]:open", "faces-asked-for:SolidBodyPressure[Field]:closed", "faces-asked-for:SolidBodyPressure[Field]:all-faces",
+        "faces-asked-for:SolidBodyPressure[FieldPlaneStrain]:open", "faces-asked-for:SolidBodyPressure[FieldPlaneStrain]:closed",
+        "faces-asked-for:SolidBodyPressure[FieldPlaneStrain]:all-faces",
+        "faces-asked-for:SolidBodyPressure[FieldAxisymmetric]:open", "faces-asked-for:SolidBodyPressure[FieldAxisymmetric]:closed",
+        "faces-asked-for:SolidBodyPressure[FieldAxisymmetric]:all-faces",
+        "faces-asked-for-moment:SolidBodyPressure[Field]:open", "faces-asked-for-moment:SolidBodyPressure[FieldPlaneStrain]:open",
+        "faces-asked-for-radial:SolidBodyPressure[FieldAxisymmetric]:open",
+        "requested:documented-default:PointLoad", "requested:documented-default:SolidBodyForce", "requested:documented-default:SolidBodyGravity",
+        "requested:documented-default:SolidBodyPressure", "loads:scale-density-left-out"]
     + ["loads:family:" + fam for fam in ("hexahedron", "tetra", "hexahedron20", "tetra10", "hexahedron27", "tetraMINI",
                                          "quad", "triangle", "quad8", "quad9", "triangle6", "triangleMINI")],
     "rule": ("C01's item/field/mesh matrix with objective materials at smooth random states (|grad u| <= 0.25, det F > 0.05): post-hooks "
@@ -1082,7 +1216,9 @@ SPEC = {
              "scaling, follower pressure on open and closed surfaces in 3D / plane strain / axisymmetric), mass matrix symmetry, "
              "positive semi-definiteness and total mass, self-equilibrium of constraint forces; first moments say where a load / the mass "
              "sits (body force and mass against int X dV from the cell vertices, pressure moment and axisymmetric radial row against "
-             "integrals over the deformed face rims); loads on the whole family x field-kind matrix in three geometry classes (length "
+             "integrals over the deformed face rims; the loaded faces, closed / all-faces and the state are the ones the caller asked the "
+             "boundary region and the assembler for: own face tables on the caller's mesh and point mask, the field handed over); arguments a "
+             "caller leaves out count with their documented defaults; loads on the whole family x field-kind matrix in three geometry classes (length "
              "units from micrometres to hundreds) and in the documented argument / call forms; a configuration is distinct by "
              "(item, field kind, clause)"),
     "assumptions": ["current area vectors: J F^-T N dA with the boundary region's normals and dA (judged by C13), and independently the vector spanned by the "
